@@ -160,6 +160,10 @@ def run_case(case):
     if len(pings) < expect_n - 1:
         obs.fail(f"{tag}|pings-missing", f"{len(pings)} pings during {t_end - t0:.1f}s with interval {I}")
     timeouts = [e for e in trace if e[1] == "error" and e[2] == "WebSocketTimeoutException" and "ping/pong" in e[3]]
+    other = [e for e in trace if e[1] == "error" and e not in timeouts]
+    if other:
+        # nothing in these scenarios loses the connection: any other error means the loop itself failed (and nothing above was really judged)
+        obs.fail(f"{tag}|run-aborted-by-error|{other[0][2]}", f"on_error({other[0][2]}: {other[0][3]}) at t={other[0][0]:.2f}")
     late = any(l is not None and l >= T for l in pongs[: len(pings)]) if T else False
     if T and not late:
         if silent_from is not None and len(pings) > silent_from:
